@@ -146,11 +146,16 @@ pub struct StepInfo {
 
 /// One step on Memfs + model. Err(Failure) describes a divergence.
 pub fn step(mem: &Memfs, model: &mut Model, op: &Op, o: &StepOpts) -> Result<StepInfo, Failure> {
+    step_h(mem, model, op, o, &mut Handles::default())
+}
+
+/// One step with a handle table that lives across steps
+pub fn step_h(mem: &Memfs, model: &mut Model, op: &Op, o: &StepOpts, h: &mut Handles) -> Result<StepInfo, Failure> {
     let ac = arg_class(model, op);
     let name = op.name();
     let pre = mem.verif_dump();
     let expect = model.apply(op);
-    let out = apply(mem, op);
+    let out = apply_h(mem, op, h);
     let post = mem.verif_dump();
     let mut info = StepInfo { out_err: out.is_err(), ..Default::default() };
     if let Out::Panic(msg) = &out {
@@ -258,6 +263,7 @@ pub struct HistStats {
 pub fn run_specs(specs: &[OpSpec], cfg: &GenCfg, o: &StepOpts, excluded: &mut u64) -> (HistStats, Result<(), Failure>) {
     let mem = Memfs::new();
     let mut model = Model::fresh();
+    let mut handles = Handles::default();
     let mut st = HistStats { ops: vec![], failing_calls: 0, ok_mutators: 0, two_path: 0, relative: 0, links: false, resyncs: 0 };
     for s in specs {
         let op = resolve(&model, cfg, s, excluded);
@@ -272,7 +278,7 @@ pub fn run_specs(specs: &[OpSpec], cfg: &GenCfg, o: &StepOpts, excluded: &mut u6
         if op.paths().iter().any(|p| !p.starts_with('/')) {
             st.relative += 1;
         }
-        match step(&mem, &mut model, &op, o) {
+        match step_h(&mem, &mut model, &op, o, &mut handles) {
             Ok(i) => {
                 if i.out_err {
                     st.failing_calls += 1;
@@ -299,10 +305,11 @@ pub fn run_specs(specs: &[OpSpec], cfg: &GenCfg, o: &StepOpts, excluded: &mut u6
 pub fn run_ops(ops: &[Op], o: &StepOpts) -> Result<(), Failure> {
     let mem = Memfs::new();
     let mut model = Model::fresh();
+    let mut handles = Handles::default();
     crate::engine::mark("ops", "[");
     for (i, op) in ops.iter().enumerate() {
         crate::engine::mark_append(&format!("{},", serde_json::to_string(op).unwrap()));
-        if let Err(mut f) = step(&mem, &mut model, op, o) {
+        if let Err(mut f) = step_h(&mem, &mut model, op, o, &mut handles) {
             f.detail = format!("step {} of {}: {}", i + 1, ops.len(), f.detail);
             return Err(f);
         }
